@@ -31,7 +31,7 @@ package corebgp
 //@   modifies nwrites(f.conn), lastKind(f.conn), lastCode(f.conn), lastSub(f.conn), lastDataLen(f.conn), lastData0(f.conn)
 //@   ensures [sent_iff_outbound] r == (hasType(err, *notificationError) && ne.out)
 //@   ensures [sent] r ==> nwrites(f.conn) == old(nwrites(f.conn)) + 1 && lastNotif(f.conn, ne.notification.Code, ne.notification.Subcode) && lastDataLen(f.conn) == len(ne.notification.Data) && (len(ne.notification.Data) >= 1 ==> lastData0(f.conn) == ne.notification.Data[0])
-//@   ensures [silent_otherwise] !r ==> nwrites(f.conn) == old(nwrites(f.conn))
+//@   ensures [silent_otherwise] !r ==> nwrites(f.conn) == old(nwrites(f.conn)) && lastKind(f.conn) == old(lastKind(f.conn))
 
 // ---- timers (C06) ----
 // Assumption (listed): a timer armed for one hour and stopped immediately has not fired.
@@ -171,6 +171,8 @@ package corebgp
 //@ func fsm.openSent$1 returns (to, err)
 //@   requires [self] fsmSelf(f) && connUp(f) && f.holdTimer != nil
 //@   ghostvar arm int = -1
+//@   ghostvar rerrIsN bool = false
+//@   ghostvar rerrN int = 0
 //@   ghostvar valErr bool = false
 //@   ghostvar validated bool = false
 //@   ghostvar rhold int = 0
@@ -183,6 +185,8 @@ package corebgp
 //@   at select#0 case 0 set arm = 0
 //@   at select#0 case 1 set arm = 1
 //@   at select#0 case 2 set arm = 2
+//@   at select#0 case 2 set rerrIsN = hasType(result, *notificationError)
+//@   at select#0 case 2 set rerrN = firstOf(result, *notificationError)
 //@   at select#0 case 3 set arm = 3
 //@   at call validate#0 assert [against_configuration] arg1 == f.peer.id && arg2 == f.peer.config.LocalAS && arg3 == f.peer.config.RemoteAS
 //@   at call validate#0 set rhold = arg0.holdTime
@@ -205,6 +209,8 @@ package corebgp
 //@   ensures [reader_notification_error] arm == 2 && hasType(err, *notificationError) ==> to == 1 && nwrites(f.conn) == old(nwrites(f.conn)) + 1 && lastNotif(f.conn, firstOf(err, *notificationError).notification.Code, firstOf(err, *notificationError).notification.Subcode)
 //@   ensures [tcp_failure_goes_active] arm == 2 && !hasType(err, *notificationError) ==> to == 3 && nwrites(f.conn) == old(nwrites(f.conn)) && f.connectRetryTimer != nil && timerOn(f.connectRetryTimer) && timerDur(f.connectRetryTimer) == f.peer.options.connectRetryTime
 //@   ensures [reader_error_kept] arm == 2 ==> err != nil && errWellFormed(err)
+//@   ensures [reader_notification_reported_to_manager] arm == 2 && rerrIsN ==> hasType(err, *notificationError) && firstOf(err, *notificationError) == asPtr(rerrN, *notificationError)
+//@   ensures [sent_notification_is_reported] nwrites(f.conn) > old(nwrites(f.conn)) && lastKind(f.conn) == 3 ==> hasType(err, *notificationError)
 //@   ensures [open_invalid] arm == 3 && validated && valErr ==> to == 1 && nOnOpen == 0 && nwrites(f.conn) == old(nwrites(f.conn)) + 1 && hasType(err, *notificationError) && lastNotif(f.conn, 2, firstOf(err, *notificationError).notification.Subcode) && firstOf(err, *notificationError).notification.Code == 2
 //@   ensures [open_valid_calls_plugin_once] arm == 3 && validated && !valErr ==> nOnOpen == 1
 //@   ensures [plugin_refusal_sent_verbatim] arm == 3 && validated && !valErr && plugN != 0 ==> to == 1 && nwrites(f.conn) == old(nwrites(f.conn)) + 1 && lastNotif(f.conn, asPtr(plugN, *Notification).Code, asPtr(plugN, *Notification).Subcode) && lastDataLen(f.conn) == len(asPtr(plugN, *Notification).Data) && errCarries(err, asPtr(plugN, *Notification), true)
@@ -224,6 +230,11 @@ package corebgp
 // openSent: whatever the inner function decides, a connection that does not
 // progress to OpenConfirm is torn down (closed, reader joined, hold timer stopped).
 //@ func fsm.openSent returns (to, err)
+//@   ghostvar innerIsN bool = false
+//@   ghostvar innerN int = 0
+//@   at call openSent$1#0 after set innerIsN = hasType(result1, *notificationError)
+//@   at call openSent$1#0 after set innerN = firstOf(result1, *notificationError)
+//@   ensures [notification_error_passed_on] innerIsN ==> hasType(err, *notificationError) && firstOf(err, *notificationError) == asPtr(innerN, *notificationError)
 //@   requires [no_dial] !dialPending(f)
 //@   requires [fields] readerFields(f)
 //@   ensures [next_state_ready] stateReq(f, to) && readerFields(f) && fsmSelf(f)
@@ -243,6 +254,10 @@ package corebgp
 //@   requires [self] fsmSelf(f) && connUp(f) && sessionTimers(f)
 //@   ghostvar arm int = -1
 //@   ghostvar nka int = 0
+//@   ghostvar rerrIsN bool = false
+//@   ghostvar rerrN int = 0
+//@   at select#0 case 3 set rerrIsN = hasType(result, *notificationError)
+//@   at select#0 case 3 set rerrN = firstOf(result, *notificationError)
 //@   at select#0 case 0 set arm = 0
 //@   at select#0 case 1 set arm = 1
 //@   at select#0 case 1 assert [no_expiry_when_hold_time_zero] f.holdTime != 0
@@ -251,7 +266,7 @@ package corebgp
 //@   at select#0 case 3 set arm = 3
 //@   at select#0 case 4 set arm = 4
 //@   at call sendKeepAlive#0 set nka = nka + 1
-//@   loop#0 invariant [session] fsmSelf(f) && connUp(f) && sessionTimers(f) && nwrites(f.conn) == old(nwrites(f.conn)) + nka && nka >= 0 && f.conn == old(f.conn)
+//@   loop#0 invariant [session] fsmSelf(f) && connUp(f) && sessionTimers(f) && nwrites(f.conn) == old(nwrites(f.conn)) + nka && nka >= 0 && f.conn == old(f.conn) && (nka > 0 ==> lastKind(f.conn) == 4)
 //@   modifies nwrites(f.conn), lastKind(f.conn), lastCode(f.conn), lastSub(f.conn), lastDataLen(f.conn), lastData0(f.conn), timerOn, timerDur, timerMayHold
 //@   ensures [result_states] to == 0 || to == 1 || to == 6
 //@   ensures [error_unless_progress] (to == 6) == (err == nil)
@@ -259,6 +274,8 @@ package corebgp
 //@   ensures [hold_timer_expiry] arm == 1 ==> to == 1 && lastNotif(f.conn, 4, 0) && hasType(err, *notificationError) && firstOf(err, *notificationError).notification.Code == 4
 //@   ensures [keepalive_send_failure] arm == 2 ==> to == 1 && !hasType(err, *notificationError)
 //@   ensures [reader_error] arm == 3 ==> to == 1 && err != nil && (hasType(err, *notificationError) ==> lastNotif(f.conn, firstOf(err, *notificationError).notification.Code, firstOf(err, *notificationError).notification.Subcode))
+//@   ensures [reader_notification_reported_to_manager] arm == 3 && rerrIsN ==> hasType(err, *notificationError) && firstOf(err, *notificationError) == asPtr(rerrN, *notificationError)
+//@   ensures [sent_notification_is_reported] nwrites(f.conn) > old(nwrites(f.conn)) && lastKind(f.conn) == 3 ==> hasType(err, *notificationError)
 //@   ensures [keepalive_establishes] to == 6 ==> arm == 4 && sessionTimers(f) && (f.holdTime != 0 ==> !timerMayHold(f.holdTimer))
 //@   ensures [received_notification_is_silent] arm == 4 && to == 1 && !firstOf(err, *notificationError).out ==> nwrites(f.conn) == old(nwrites(f.conn)) + nka
 //@   ensures [unexpected_message] arm == 4 && to == 1 && firstOf(err, *notificationError).out ==> lastNotif(f.conn, 5, 2) && lastDataLen(f.conn) == 1 && (lastData0(f.conn) == 1 || lastData0(f.conn) == 2)
@@ -266,6 +283,11 @@ package corebgp
 //@   ensures [error_well_formed] err != nil ==> errWellFormed(err)
 
 //@ func fsm.openConfirm returns (to, err)
+//@   ghostvar innerIsN bool = false
+//@   ghostvar innerN int = 0
+//@   at call openConfirm$1#0 after set innerIsN = hasType(result1, *notificationError)
+//@   at call openConfirm$1#0 after set innerN = firstOf(result1, *notificationError)
+//@   ensures [notification_error_passed_on] innerIsN ==> hasType(err, *notificationError) && firstOf(err, *notificationError) == asPtr(innerN, *notificationError)
 //@   requires [no_dial] !dialPending(f)
 //@   requires [fields] readerFields(f)
 //@   ensures [next_state_ready] stateReq(f, to) && readerFields(f) && fsmSelf(f)
@@ -305,6 +327,10 @@ package corebgp
 //@   ghostvar arm int = -1
 //@   ghostvar nEst int = 0
 //@   ghostvar wr int = 0
+//@   ghostvar rerrIsN bool = false
+//@   ghostvar rerrN int = 0
+//@   at select#0 case 3 set rerrIsN = hasType(result, *notificationError)
+//@   at select#0 case 3 set rerrN = firstOf(result, *notificationError)
 //@   at select#0 case 0 set arm = 0
 //@   at select#0 case 1 set arm = 1
 //@   at select#0 case 1 assert [no_expiry_when_hold_time_zero] f.holdTime != 0
@@ -317,7 +343,7 @@ package corebgp
 //@   at call OnEstablished#0 set nEst = nEst + 1
 //@   at call OnEstablished#0 set wr = asType(arg2, *updateMessageWriter)
 //@   at call handler#0 assert [only_while_established] nEst == 1 && !chanClosed(asPtr(wr, *updateMessageWriter).closeCh)
-//@   loop#0 invariant [session] fsmSelf(f) && connUp(f) && estTimers(f) && nEst == 1 && f.conn == old(f.conn) && wr != 0 && asPtr(wr, *updateMessageWriter).closeCh != nil && !chanClosed(asPtr(wr, *updateMessageWriter).closeCh) && !chanClosed(closeKAManagerCh) && resetKATimerCh != nil && closeKAManagerCh != asPtr(wr, *updateMessageWriter).closeCh
+//@   loop#0 invariant [session] fsmSelf(f) && connUp(f) && estTimers(f) && nEst == 1 && f.conn == old(f.conn) && wr != 0 && asPtr(wr, *updateMessageWriter).closeCh != nil && !chanClosed(asPtr(wr, *updateMessageWriter).closeCh) && !chanClosed(closeKAManagerCh) && resetKATimerCh != nil && closeKAManagerCh != asPtr(wr, *updateMessageWriter).closeCh && (nwrites(f.conn) > old(nwrites(f.conn)) ==> lastKind(f.conn) != 3)
 //@   modifies nwrites(f.conn), lastKind(f.conn), lastCode(f.conn), lastSub(f.conn), lastDataLen(f.conn), lastData0(f.conn), timerOn, timerDur, timerMayHold, chanClosed(closeKAManagerCh)
 //@   ensures [result_states] to == 0 || to == 1
 //@   ensures [always_an_error] err != nil && errWellFormed(err)
@@ -327,6 +353,8 @@ package corebgp
 //@   ensures [hold_timer_expiry] arm == 1 ==> to == 1 && lastNotif(f.conn, 4, 0) && hasType(err, *notificationError) && firstOf(err, *notificationError).notification.Code == 4
 //@   ensures [keepalive_send_failure] arm == 2 ==> to == 1 && !hasType(err, *notificationError)
 //@   ensures [reader_error] arm == 3 ==> to == 1 && (hasType(err, *notificationError) ==> lastNotif(f.conn, firstOf(err, *notificationError).notification.Code, firstOf(err, *notificationError).notification.Subcode))
+//@   ensures [reader_notification_reported_to_manager] arm == 3 && rerrIsN ==> hasType(err, *notificationError) && firstOf(err, *notificationError) == asPtr(rerrN, *notificationError)
+//@   ensures [sent_notification_is_reported] nwrites(f.conn) > old(nwrites(f.conn)) && lastKind(f.conn) == 3 ==> hasType(err, *notificationError)
 //@   ensures [message_arm_always_reports] arm == 4 ==> to == 1 && hasType(err, *notificationError)
 //@   ensures [notification_sent_verbatim_or_fsm_error] arm == 4 && firstOf(err, *notificationError).out ==> lastNotif(f.conn, firstOf(err, *notificationError).notification.Code, firstOf(err, *notificationError).notification.Subcode) && lastDataLen(f.conn) == len(firstOf(err, *notificationError).notification.Data)
 //@   ensures [conn_unchanged] f.conn == old(f.conn) && connUp(f)
@@ -335,6 +363,11 @@ package corebgp
 // called exactly once on every path, after the writer has been closed, the
 // connection torn down, the reader and the keepalive manager joined.
 //@ func fsm.established returns (to, err)
+//@   ghostvar innerIsN bool = false
+//@   ghostvar innerN int = 0
+//@   at call established$2#0 after set innerIsN = hasType(result1, *notificationError)
+//@   at call established$2#0 after set innerN = firstOf(result1, *notificationError)
+//@   ensures [notification_error_passed_on] innerIsN ==> hasType(err, *notificationError) && firstOf(err, *notificationError) == asPtr(innerN, *notificationError)
 //@   requires [no_dial] !dialPending(f)
 //@   requires [fields] readerFields(f)
 //@   ensures [next_state_ready] stateReq(f, to) && readerFields(f) && fsmSelf(f)
@@ -401,6 +434,7 @@ package corebgp
 //@   at select#1 case 0 set echoTo = 0
 //@   at select#1 case 1 assume result == t
 //@   at select#1 case 1 set echoTo = result.to
+//@   at select#2 case 1 assert [state_error_reported_verbatim] sendval == err
 //@   at call sendNotification#0 assert [cease] arg1.Code == 6 && arg1.Subcode == 0 && len(arg1.Data) == 0
 //@   at call idle#0 assert [approved] echoTo == 1
 //@   at call connect#0 assert [approved] echoTo == 2
